@@ -77,11 +77,7 @@ Theorem C07_check_chunk_sound :
       stack s' = stack s /\ map lf_end_ip (loops s') = map lf_end_ip (loops s) /\
       length (caps s') = length (caps s) /\ blocks s' = blocks s /\ cur_block s' = cur_block s
   end.
-Proof.
-  intros W wr wd reg Hreg Hwd fuel tpl ae depth c s o HT HC HR HB.
-  apply (chunk_sound W wr wd reg Hreg Hwd fuel tpl ae depth c s o HT); [|exact HB].
-  unfold good, chunk_good. rewrite HC, HR. reflexivity.
-Qed.
+Proof. exact check_chunk_sound. Qed.
 
 (* the invariant itself: at every ip the three stacks have the shape the table records
    (relative to the entry heights); check_table is what is trusted, infer is only a heuristic *)
